@@ -811,3 +811,82 @@ func init() {
 			return out
 		}})
 }
+
+// ROWOP — an operation whose key list needs the row swap is implemented by the scheme that has rows.
+//
+// A BGV/BFV plaintext is a 2 x N/2 matrix; the generic rlwe operations only know column rotations. When the scheme's
+// `Parameters.GaloisElementsFor<Op>` adds `GaloisElementForRowRotation()` to the generic list, the scheme says that
+// <Op> needs the row swap for some arguments — so its Evaluator must implement <Op> itself: inherited from
+// rlwe.Evaluator the operation never uses the key it advertises, and is wrong for those arguments (bgv `Replicate`
+// replicated twice in the first row and left the second one empty).
+func scanRowOp(c *core.Ctx) []ob {
+	var out []ob
+	n := 0
+	for _, pk := range c.Pkgs {
+		rel := core.ShortPkg(pk.PkgPath)
+		if !(c.IsFixture || strings.HasPrefix(rel, "schemes/")) {
+			continue
+		}
+		info := pk.TypesInfo
+		// own methods of the Evaluator of the package
+		own := map[string]bool{}
+		hasEval := false
+		for _, f := range pk.Syntax {
+			for _, d := range f.Decls {
+				if fd, ok := d.(*ast.FuncDecl); ok && fd.Recv != nil && core.RecvTypeName(fd) == "Evaluator" {
+					own[fd.Name.Name] = true
+					hasEval = true
+				}
+			}
+		}
+		if !hasEval {
+			continue
+		}
+		for _, f := range pk.Syntax {
+			if fileIsTestSupport(c.Program, f.Pos()) {
+				continue
+			}
+			for _, d := range f.Decls {
+				fd, ok := d.(*ast.FuncDecl)
+				if !ok || fd.Body == nil || fd.Recv == nil || !strings.HasPrefix(fd.Name.Name, "GaloisElementsFor") {
+					continue
+				}
+				op := strings.TrimPrefix(fd.Name.Name, "GaloisElementsFor")
+				needsRow := false
+				ast.Inspect(fd.Body, func(x ast.Node) bool {
+					if call, ok := x.(*ast.CallExpr); ok && calleeName(info, call) == "GaloisElementForRowRotation" {
+						needsRow = true
+					}
+					return !needsRow
+				})
+				if !needsRow || op == "" {
+					continue
+				}
+				n++
+				fkey := core.FuncKey(pk, fd)
+				key := "ROWOP:" + fkey
+				if own[op] {
+					out = append(out, withProps(okOb("ROWOP", key, c.Rel(fd.Pos()), "the Evaluator of the package implements "+op+" itself", true), "C11", "C05"))
+				} else {
+					out = append(out, withProps(violOb("ROWOP", key, c.Rel(fd.Pos()), fmt.Sprintf("%s adds the row-swap element to the key list of %s, but the Evaluator of %s has no %s of its own: the operation inherited from the generic evaluator only rotates columns, never uses that key and is wrong for the arguments that need it", fkey, op, rel, op)), "C11", "C05"))
+				}
+			}
+		}
+	}
+	c.Stats["rowop_lists"] = n
+	return out
+}
+
+func init() {
+	core.Register(&core.Rule{Name: "ROWOP", Props: []string{"C11", "C05"},
+		Doc: "when a scheme's Parameters.GaloisElementsFor<Op> adds GaloisElementForRowRotation() to the generic list, the scheme's Evaluator declares <Op> itself (the generic operation never uses the row swap)",
+		Run: func(c *core.Ctx) []ob {
+			out := scanRowOp(c)
+			if !c.IsFixture {
+				for _, o := range core.Floor("ROWOP", nil, "key lists with the row swap", c.Stats["rowop_lists"], 2) {
+					out = append(out, withProps(o, "C11"))
+				}
+			}
+			return out
+		}})
+}
